@@ -191,6 +191,8 @@ pub struct CtxSpec {
 	/// (singular, plural, definition, attribute) with attribute one of
 	/// "none" "l" "s" "lp" "alias"
 	pub custom_units: Vec<(String, String, String, String)>,
+	/// `true` = `set_decimal_separator_style(DecimalSeparatorStyle::Comma)`
+	pub comma: bool,
 }
 
 /// The deterministic fake exchange rate: a multiple of 1/4 in [0.25, 64]
@@ -210,6 +212,9 @@ pub fn make_context(spec: &CtxSpec) -> crate::Context {
 	let mut ctx = crate::Context::new();
 	if spec.coulomb_farad {
 		ctx.use_coulomb_and_farad();
+	}
+	if spec.comma {
+		ctx.set_decimal_separator_style(crate::DecimalSeparatorStyle::Comma);
 	}
 	match spec.rates {
 		Rates::Absent => {}
